@@ -51,6 +51,7 @@ def const_strings(consts):
 
 def run(ctx, rep):
     prog = ctx.prog
+    wiring_rule(ctx, rep, "C20")
     for r, tx in (("C20.a", "publish sequence: complete and synced temp file, then rename"), ("C20.b", "temporary/foreign names are never listed"),
                   ("C20.c", "ranged read shape"), ("C20.e", "no file-system error dropped")):
         rep.rule(r, tx)
